@@ -16,3 +16,23 @@ CHECKS = {
 }
 for p in ['C01', 'C02', 'C03', 'C04', 'C05', 'C06', 'C07', 'C08', 'C09', 'C20']:
     CHECKS[p] = pool('explicit-state BFS over histories of balancer callbacks, picks, completions and clock advances on the real gcpBalancer over a fake ClientConn; distinct canonical state keys in which the premise of a rule of this property was exercised')
+
+BFS_NOTE = ('Bounded: depth/alphabet/configurations as reported in the evidence; small scope (<=3 channels/endpoints, 2 keys, <=3 open calls). '
+            'Trusted: the instrumenter (vinstr) preserves semantics; the shims for sync/atomic/time/context; the fake environment (ClientConn, virtual clock/timers); the reference model written from the property statement.')
+def _m(engine, technique, text, ref, note=BFS_NOTE):
+    return dict(engine=engine, technique=technique, text=text, design_ref=ref, note=note)
+T_BFS = 'explicit-state model checking of the implementation: exhaustive BFS over operation histories on the real code with canonical-state deduplication, reference-model oracle'
+META = {
+    'C01': _m('history-bfs', T_BFS, 'Every history up to the depth bound (binds, keyed picks on latest/stale pickers, completions with every outcome, state reports, refresh) in every listed configuration keeps a bound key on its channel (rules R1-R3, unbind/rebind semantics); exhaustive within the bound, so a counterexample of that size cannot be missed.', 'DESIGN.md 4/C01'),
+    'C02': _m('history-bfs', T_BFS, 'Least-loaded placement is checked on every pick of every explored history against reference in-flight counts; stream counters are compared with placed-minus-completed after every operation.', 'DESIGN.md 4/C02'),
+    'C03': _m('history-bfs', T_BFS, 'Initial size, growth condition, max bound and removal rule are checked on every transition of the explored histories for six (min,max,watermark) configurations.', 'DESIGN.md 4/C03'),
+    'C04': _m('history-bfs', T_BFS, 'Published state/picker vs. reference aggregate after every transition, including repeats, unknown/removed/replacement connections, shutdowns and refresh swaps.', 'DESIGN.md 4/C04'),
+    'C05': _m('history-bfs', T_BFS, 'No operation of any explored history panics (union alphabet with malformed inputs, stale pickers, failing factory, empty resolver results), in every feature configuration.', 'DESIGN.md 4/C05'),
+    'C06': _m('history-bfs', T_BFS, 'Every operation of every explored history returns: self-deadlock is "no enabled thread", spinning is a step budget on instrumented operations, and no lock is held at return.', 'DESIGN.md 4/C06'),
+    'C07': _m('history-bfs', T_BFS, 'A reference detector (base instant, counted deadline calls, k, refreshing) decides for every completion whether exactly one replacement must be created; swap, removal and take-over are checked on every state report.', 'DESIGN.md 4/C07'),
+    'C08': _m('history-bfs', T_BFS, 'Fallback placement, stand-in stickiness and return-home are checked on every keyed pick of the explored histories, saturated and unsaturated pools.', 'DESIGN.md 4/C08'),
+    'C09': _m('history-bfs', T_BFS, 'Round-robin assignment order, waiting only for READY/context end and prompt return are checked over all explored histories (parked picks are threads of the controlled scheduler).', 'DESIGN.md 4/C09'),
+    'C13': _m('history-bfs', T_BFS, 'The real multiEndpoint is driven through every history up to the depth bound for every (recovery, delay) class and compared with an independent reference after every transition.', 'DESIGN.md 4/C13'),
+    'C14': _m('history-bfs', T_BFS, 'Window, delay and convergence rules; convergence (L1) is decided from every reached state by firing all pending timers to exhaustion.', 'DESIGN.md 4/C14'),
+    'C20': _m('history-bfs', T_BFS, 'Address lists handed to every connection (creation, update, take-over) are tracked by the fake ClientConn and compared with the latest resolver result after every transition.', 'DESIGN.md 4/C20'),
+}
